@@ -3,7 +3,7 @@
    Print Assumptions beneath each.  The model is Model/PropLayer.v: `step`/`run_state` are the
    functions the correspondence check runs (run_case = run_ops (init ..) ops). *)
 From Coq Require Import ZArith List Bool.
-From Mesa Require Import Common.ListX Model.PropLayer Proofs.PropLayerProofs.
+From Mesa Require Import Common.ListX Model.PropLayer Proofs.PropLayerProofs Proofs.PropLayerEmpty.
 Import ListNotations.
 Open Scope Z_scope.
 
@@ -128,3 +128,37 @@ Example C18_proplayer_atomic_example :
 Proof.
   split; [exists true, [2; 2], ex_ops; reflexivity|]. vm_compute. repeat split.
 Qed.
+
+(* The built-in emptiness layer: after ANY history that does not itself write to or detach the
+   layer "empty" (agents placed, moved, removed; any other layers created, removed, written, bulk
+   modified; selections), for every cell the layer - read through the grid or through the cell
+   attribute - says "empty" exactly when no agent is in the cell. *)
+Theorem C11_empty_layer_true : forall dims ops c,
+  forallb (fun o => negb (touches_empty o)) ops = true ->
+  valid_coord dims c = true ->
+  let st := run_state (init true dims) ops in
+  layer_read st EMPTY c = Some (b2z (negb (occupied (s_agents st) c))) /\
+  cell_read st c EMPTY = Some (b2z (negb (occupied (s_agents st) c))).
+Proof. exact empty_layer_true. Qed.
+Print Assumptions C11_empty_layer_true.
+
+(* The legacy SingleGrid mask: after ANY history (no side condition: no operation of the model can
+   write the mask except place/move/remove), empty_mask[c] = (no agent in c) for every cell. *)
+Theorem C11_empty_mask_true : forall dims ops c,
+  valid_coord dims c = true ->
+  let st := run_state (init false dims) ops in
+  aget (s_emask st) c = Some (b2z (negb (occupied (s_agents st) c))).
+Proof. exact empty_mask_true. Qed.
+Print Assumptions C11_empty_mask_true.
+
+Example C11_empty_mask_example :
+  let st := run_state (init false [2; 2]) [Place 1 [0; 1]; Place 2 [1; 1]; Place 3 [1; 1]; Move 1 [0; 0]; Remove 2] in
+  avals (s_emask st) = [0; 1; 1; 1] /\ s_agents st = [(1, [0; 0])].
+Proof. vm_compute. split; reflexivity. Qed.
+
+Example C11_empty_layer_example :
+  let ops := ex_ops ++ [Place 8 [0; 1]; Move 7 [1; 1]; Remove 8; RemoveLayer 2; Place 9 [1; 1]; Remove 7] in
+  forallb (fun o => negb (touches_empty o)) ops = true /\
+  map (fun c => layer_read (run_state (init true [2; 2]) ops) EMPTY c) (all_coords [2; 2])
+    = [Some 1; Some 1; Some 1; Some 0].
+Proof. vm_compute. split; reflexivity. Qed.
